@@ -426,6 +426,124 @@ example : (run (some 2) closeProgram).rxClosed = true ∧ (run (some 2) closePro
 
 end CloseProgram
 
+
+/-! ### the packet on the wire: the seq attribute is text (round C) -/
+section Wire
+
+/-- a packet that is refused on the wire level (unknown / closed stream, attribute that is no
+numeral, a number that is not the expected one, bad payload, no room) changes nothing -/
+theorem C15_wire_refuse_unchanged (cd : Codec) (s : RState) (w : WirePacket)
+    (h : (recvWire cd s w).2 ≠ .ack) : (recvWire cd s w).1 = s := by
+  unfold recvWire at h ⊢
+  by_cases hk : (!(w.known && s.live)) = true
+  · rw [if_pos hk]
+  · rw [if_neg hk] at h ⊢
+    cases hp : parseSeqAttr w.seqAttr with
+    | malformed => rfl
+    | num n =>
+      simp only [hp] at h ⊢
+      exact C15_refuse_unchanged cd s _ h
+
+/-- a packet is accepted only if its attribute denotes EXACTLY the expected number — as a natural
+number, not modulo 65536 (nor modulo anything else) -/
+theorem C15_wire_accept_only_expected_number (cd : Codec) (s : RState) (w : WirePacket)
+    (h : (recvWire cd s w).2 = .ack) : parseSeqAttr w.seqAttr = .num s.seq ∧ w.known = true ∧ s.live = true := by
+  unfold recvWire at h
+  by_cases hk : (!(w.known && s.live)) = true
+  · rw [if_pos hk] at h; simp at h
+  · rw [if_neg hk] at h
+    have hkl : w.known = true ∧ s.live = true := by
+      cases hw : w.known <;> cases hs : s.live <;> simp_all
+    cases hp : parseSeqAttr w.seqAttr with
+    | malformed => simp [hp] at h
+    | num n =>
+      simp only [hp] at h
+      refine ⟨?_, hkl⟩
+      by_cases hne : n = s.seq
+      · rw [hne]
+      · have := C15_refuse_out_of_sequence cd s ⟨w.known, n, w.payload⟩
+        simp_all
+
+/-- a number congruent to the expected one modulo 65536 but different from it (expected + 65536·k,
+k ≥ 1 — also beyond 32 or 64 bits) is refused as out of sequence and changes nothing -/
+theorem C15_wire_congruent_number_refused (cd : Codec) (s : RState) (w : WirePacket) (k : Nat)
+    (hk : w.known = true) (hl : s.live = true) (hn : parseSeqAttr w.seqAttr = .num (s.seq + 65536 * (k + 1))) :
+    recvWire cd s w = (s, .unexpectedRequest) := by
+  unfold recvWire recv
+  simp [hk, hl, hn]
+
+/-- an attribute that is no numeral is refused with bad-request (on a live stream) -/
+theorem C15_wire_malformed_refused (cd : Codec) (s : RState) (w : WirePacket)
+    (hk : w.known = true) (hl : s.live = true) (hn : parseSeqAttr w.seqAttr = .malformed) :
+    recvWire cd s w = (s, .badRequest) := by
+  unfold recvWire
+  simp [hk, hl, hn]
+
+-- non-vacuity: "65537" denotes 65537, which is 1 + 65536·1; a stream expecting packet 1 refuses it
+example : parseSeqAttr [54, 53, 53, 51, 55] = .num (1 + 65536 * (0 + 1)) := by decide   -- "65537"
+example : recvWire std ⟨true, 1, [65], 0⟩ ⟨true, [54, 53, 53, 51, 55], [81, 81, 61, 61]⟩ =
+    (⟨true, 1, [65], 0⟩, .unexpectedRequest) := by decide
+-- "4294967297" = 1 + 65536 · 65536
+example : parseSeqAttr [52, 50, 57, 52, 57, 54, 55, 50, 57, 55] = .num (1 + 65536 * (65535 + 1)) := by decide
+example : parseSeqAttr [45, 49] = .malformed ∧ parseSeqAttr [] = .malformed := by decide   -- "-1", ""
+example : (recvWire std ⟨true, 1, [65], 0⟩ ⟨true, [49], [81, 81, 61, 61]⟩).2 = .ack := by decide
+
+/-- the REAL handler, probed by `harness facts` on this run over the whole table {expects 0,
+expects 1} × `seqAttrUniverse` (numbers up to and beyond 16, 32 and 64 bits, congruent to the
+expected one or not, leading zeros, signs, blanks, other notations), answers exactly like the
+model — in particular it acknowledges a packet iff the attribute denotes the expected number -/
+theorem C15_seq_attr_probe :
+    Generated.C15.seqAttrProbe =
+      some (([0, 1] : List Nat).flatMap fun e => seqAttrUniverse.map fun a => (e, a, seqAttrModel e a)) := by
+  decide
+
+end Wire
+
+/-! ### a local Close keeps receiving until the peer has answered (round C) -/
+section Handshake
+open XmppModel.IbbClose
+
+/-- over the control points regenerated from `ibb/conn.go`: a `Close` on which nothing fails sends
+its close request and, at every step at which it waits for the peer (flush, encoder close, the
+request, its answer), the stream is still registered and its receiving side open — the packets
+the peer had in flight, or flushes when it handles the request, are not turned away -/
+theorem C15_close_receives_while_waiting :
+    (Generated.C15.closeProgram.bind parseProgram).map receivesWhileWaiting = some true := by decide
+
+/-- the model routine of the driver has the same property (`closeBegin true` in receiver histories) -/
+theorem C15_close_model_receives_while_waiting : receivesWhileWaiting closeProgram = true := by decide
+
+/-- negation witness: giving up the session id at the start of `Close` turns those packets away -/
+theorem C15_close_unregister_first_fails :
+    receivesWhileWaiting [.setClosed, .unregister, .deferCloseRead, .flush, .encClose, .other, .sendCloseIQ, .closeResp] = false ∧
+    alwaysClosesRead [.setClosed, .unregister, .deferCloseRead, .flush, .encClose, .other, .sendCloseIQ, .closeResp] = true := by
+  decide
+
+/-- what that means for the pipe: consecutively numbered decodable packets that arrive between the
+close request and its answer are all acknowledged, and after the close the reader drains the old
+buffer followed by exactly their payloads, then reads end-of-file -/
+theorem C15_in_flight_at_close_delivered (cd : Codec) (ps : List Packet) (s : RState) (d : Bytes) (n : Nat)
+    (hl : s.live = true) (hm : s.maxBuf = 0) (hlt : s.seq < 65536) (hseq : seqsFrom s.seq ps = true)
+    (hd : decodeAll cd ps = some d) :
+    let r := recvAll cd (closeBegin true s) ps
+    r.2 = ps.map (fun _ => Reply.ack) ∧ (Ibb.close r.1).buf = s.buf ++ d ∧
+    readOut (Ibb.close r.1) n ≠ .blocks ∧ (readOut (Ibb.close r.1) n = .eof ↔ s.buf ++ d = []) := by
+  have h := C15_deliver cd ps s d hl hm hlt hseq hd
+  have he := (C15_eof_only_when_drained (recvAll cd s ps).1 n).1
+  simp only [closeBegin, if_true]
+  refine ⟨h.2.1, ?_, (C15_drain_then_eof _ n).2.1, ?_⟩
+  · simpa [Ibb.close] using h.1
+  · rw [he, h.1]
+
+/-- negation witness on the model: a Close that takes the receiving side down before it waits
+(`closeBegin false`) refuses the very same packets -/
+theorem C15_in_flight_lost_if_closed_early :
+    (recvAll std (closeBegin false ⟨true, 1, [65], 0⟩) [⟨true, 1, [81, 81, 61, 61]⟩]).2 = [.itemNotFound] := by decide
+
+example : seqsFrom 1 [⟨true, 1, [81, 81, 61, 61]⟩] = true ∧ decodeAll std [⟨true, 1, [81, 81, 61, 61]⟩] = some [65] := by decide
+
+end Handshake
+
 /-! ### the Lean base64 codec: both laws, and the pipe without any codec hypothesis -/
 
 /-- `decode (encode x) = x` for every byte string -/
